@@ -65,6 +65,7 @@ type VC struct {
 	excl     map[string]exclusion
 	replayFn    *FuncInfo
 	replayLemma *Lemma
+	globalsDone map[types.Object]bool
 }
 
 type exclusion struct {
